@@ -347,6 +347,9 @@ class World(Domain):
             if obj.tag == "fvo-model" and name in ("get_free_variables", "walk"):
                 return True, Prim(lambda i, a, k: self.free_symbols(a[0]), "fvo." + name)
             if obj.cls == ENV and name == "fvo":
+                if self.lazy_services and getattr(obj.attrs["_fvo"], "tag", None) == "fvo-model":
+                    # with full services the free-variables oracle is the real class, interpreted, like the others
+                    obj.attrs["_fvo"] = self.new_walker("pysmt.oracles.FreeVarsOracle", obj)
                 return True, obj.attrs["_fvo"]
             if obj.cls == ENV and self.lazy_services and name in _SERVICES and name not in obj.attrs:
                 # environment services are instantiated (interpreted from the real classes) on first use
